@@ -247,3 +247,23 @@ mutant("c04-ringbuffer-public", "C04", "C04.encapsulation", "ruzstd/src/decoding
 mutant("c04-chunk-not-min", "C04", "C04.unchecked-callers", DB, "            let chunksize = usize::min(offset, copied_counter_left);", "            let chunksize = usize::max(offset, 1).min(copied_counter_left + 0 * offset).max(offset.min(1));")
 benign("c04-rename-after-tail", "C04", RBF, "after_tail", "first_part", count=10)
 benign("c04-swap-min-args", "C04", RBF, "            let after_tail = usize::min(len, self.cap - self.tail);", "            let after_tail = usize::min(self.cap - self.tail, len);")
+
+# ---- C03 -------------------------------------------------------------------------------
+HUFD2 = HUFD
+mutant("c03-offset-code-guard-removed", "C03", "C03.", SSD, "        if of_code > MAX_OFFSET_CODE {\n            return Err(DecodeSequenceError::UnsupportedOffset {\n                offset_code: of_code,\n            });\n        }\n\n        let (obits, ml_add, ll_add) = br.get_bits_triple(of_code, ml_num_bits, ll_num_bits);\n        let offset = obits as u32 + (1u32 << of_code);\n\n        if offset == 0 {\n            return Err(DecodeSequenceError::ZeroOffset);\n        }\n\n        target.push(Sequence {\n            ll: ll_value + ll_add as u32,\n            ml: ml_value + ml_add as u32,\n            of: offset,\n        });\n\n        if target.len() < section.num_sequences as usize {\n            //println!(\n            //    \"Bits left: {} ({} bytes)\",\n            //    br.bits_remaining(),\n            //    br.bits_remaining() / 8,\n            //);\n            ll_dec.update_state(br);",
+       "        let (obits, ml_add, ll_add) = br.get_bits_triple(of_code, ml_num_bits, ll_num_bits);\n        let offset = obits as u32 + (1u32 << of_code);\n\n        if offset == 0 {\n            return Err(DecodeSequenceError::ZeroOffset);\n        }\n\n        target.push(Sequence {\n            ll: ll_value + ll_add as u32,\n            ml: ml_value + ml_add as u32,\n            of: offset,\n        });\n\n        if target.len() < section.num_sequences as usize {\n            //println!(\n            //    \"Bits left: {} ({} bytes)\",\n            //    br.bits_remaining(),\n            //    br.bits_remaining() / 8,\n            //);\n            ll_dec.update_state(br);")
+mutant("c03-rle-range-weakened", "C03", "C03.", SSD, "            if ml_source[0] > MAX_MATCH_LENGTH_CODE {", "            if ml_source[0] > MAX_MATCH_LENGTH_CODE + 1 {")
+mutant("c03-seqheader-len-guard", "C03", "C03.", SEQS, "            255 => {\n                if source.len() < 4 {", "            255 => {\n                if source.len() < 3 {")
+mutant("c03-jump-guard-weakened", "C03", "C03.", LSD, "        if source.len() < jump3 {", "        if source.len() < jump2 {")
+mutant("c03-question-to-unwrap", "C03", "C03.inventory.panics", LSD, "let num_streams = section.num_streams.ok_or(err::MissingNumStreams)?;", "let num_streams = section.num_streams.unwrap();")
+mutant("c03-new-assert", "C03", "C03.inventory.panics", FSED, "        self.accuracy_log = 0;\n\n        let bytes_read = self.read_probabilities(source, max_log)?;", "        self.accuracy_log = 0;\n        assert!(source.len() > 1);\n\n        let bytes_read = self.read_probabilities(source, max_log)?;")
+mutant("c03-padding-loop-exit", "C03", "C03.", SSD, "        if val == 1 || skipped_bits > 8 {\n            break;\n        }\n    }\n    if skipped_bits > 8 {", "        if val == 1 {\n            break;\n        }\n    }\n    if skipped_bits > 8 {")
+mutant("c03-zero-offset-check-removed", "C03", "C03.", SEQX, "        if actual_offset == 0 {\n            return Err(ExecuteSequencesError::ZeroOffset);\n        }\n", "")
+mutant("c03-acc-log-guard", "C03", "C03.guards", FSED, "        if self.accuracy_log > max_log {", "        if self.accuracy_log > max_log + 20 {")
+mutant("c03-huff-weight-guard", "C03", "C03.", HUFD, "            if *w > MAX_MAX_NUM_BITS {", "            if *w > MAX_MAX_NUM_BITS + 8 {")
+mutant("c03-new-unsafe", "C03", "C03.inventory.unsafe", LSD, "            target.extend(&source[0..section.regenerated_size as usize]);", "            target.extend(unsafe { source.get_unchecked(0..section.regenerated_size as usize) });")
+mutant("c03-new-loop", "C03", "C03.inventory.loops", BLKD, "        let last_block = self.is_last();\n", "        let last_block = self.is_last();\n        let mut spin = block_size;\n        while spin > 131072 {\n            spin -= content_size;\n        }\n")
+mutant("c03-literals-extent-guard", "C03", "C03.", BLKD, "        if raw.len() < upper_limit_for_literals {", "        if raw.len() + 1 < upper_limit_for_literals {")
+mutant("c03-dict-guard", "C03", "C03.", DICT, "        if raw_tables.len() < huf_size as usize {", "        if raw_tables.len() + 4 < huf_size as usize {")
+benign("c03-reorder-guards", "C03", FSED, "        if self.accuracy_log > max_log {", "        if max_log < self.accuracy_log {")
+benign("c03-comment-shift", "C03", SSD, "fn maybe_update_fse_tables(", "// a\n// b\n// c\nfn maybe_update_fse_tables(")
